@@ -181,3 +181,528 @@ Proof. intros H Htc Herr. eapply Forall_impl; [|exact H]. intros b Hb. eapply bl
 
 Lemma first_wins_some cur e : first_wins cur e <> None.
 Proof. destruct cur; cbn; discriminate. Qed.
+
+(* ------------------------------------------------------------------ preservation *)
+(* a step that only advances thread i and possibly raises the error / closes the transport *)
+Lemma inv_frame s s' i tn :
+  Inv s -> (exists t, nth_error (wths s) i = Some t) ->
+  wths s' = upd i tn (wths s) -> wlk s' = wlk s -> wopen s' = wopen s -> wclosed s' = wclosed s ->
+  wwire s' = wwire s ->
+  (wtc s = true -> wtc s' = true) -> (werr s <> None -> werr s' <> None) ->
+  (forall j, j <> i -> wlk s = Some j -> werr s' = werr s) ->
+  thr_ok s' i tn -> Inv s'.
+Proof.
+  intros HI (t & Ei) Hths Hlk Hop Hcl Hwi Htc Herr Herr' Hi.
+  constructor.
+  - intros j tj Hj. rewrite Hths in Hj. apply nth_upd_cases in Hj.
+    destruct Hj as [(<- & -> & _)|(Hne & Hj)]; [exact Hi|].
+    eapply thr_ok_other; [apply (inv_thr s HI j tj Hj)|rewrite Hlk; auto|].
+    intros Hh. rewrite Hlk. split; [exact Hh|split; [exact Hop|split; [|exact Htc]]].
+    apply (Herr' j); congruence.
+  - intros h Hh. rewrite Hlk in Hh. destruct (inv_holder s HI h Hh) as (th & Eh). rewrite Hths.
+    destruct (Nat.eq_dec i h) as [->|Hne].
+    + exists tn. eapply nth_upd_same; eauto.
+    + exists th. now rewrite nth_upd_other.
+  - rewrite Hlk, Hop. apply (inv_open s HI).
+  - rewrite Hwi, Hcl, Hlk, Hop. apply (inv_wire s HI).
+  - rewrite Hcl. eapply Forall_block_ok_mono; [apply (inv_blocks s HI)|exact Htc|exact Herr].
+  - intros t0 f Hin Hc Hne. rewrite Hcl in Hin. destruct (inv_close s HI t0 f Hin Hc Hne) as (He & Ho & Hr).
+    split; [now apply Herr|split; [now rewrite Hop|now rewrite Hcl]].
+Qed.
+
+Ltac fields := cbn [wlk werr wtc wths wwire wclosed wopen wres wcode wfail].
+
+Lemma okhold_inv s ins rest : okhold s (ins :: rest) ->
+  (ins = WTest /\ wopen s = [] /\ exists f, in_wr f [] (chunks_of f) rest)
+  \/ (exists f d x r, ins = WWrite true x /\ in_wr f (d ++ [x]) r rest /\ d ++ x :: r = chunks_of f /\
+                      rev (wopen s) = d /\ werr s = None)
+  \/ (exists f, ins = WLatch (is_close f) /\ in_rel f rest /\ rev (wopen s) = chunks_of f /\ werr s = None)
+  \/ (exists f, ins = WRel /\ top rest /\ rev (wopen s) = chunks_of f /\ (is_close f = true -> werr s <> None)).
+Proof.
+  intros [(f & H & Ho)|[(f & d & r & H & Hd & Ho & He)|(f & H & Ho & Hc)]].
+  - inversion H; subst. left. eauto.
+  - inversion H; subst.
+    + right; left. exists f, (rev (wopen s)), x, r0. auto.
+    + right; right; left. exists f. rewrite app_nil_r in Hd. subst. auto.
+  - inversion H; subst. right; right; right. exists f. auto.
+Qed.
+
+Lemma cs_head ins rest : cs (ins :: rest) ->
+  match ins with WTest | WWrite true _ | WLatch _ | WRel => True | _ => False end.
+Proof.
+  intros H. apply cs_not_top_head in H. destruct H as [ -> |[(x & ->)|[(b & ->)| ->]]]; exact I.
+Qed.
+
+Lemma top_head ins rest : top (ins :: rest) ->
+  match ins with WPrep | WEnd | WCloseT | WAcq _ => True | _ => False end.
+Proof. intros H. inversion H; exact I. Qed.
+
+Lemma okhold_head s ins rest : okhold s (ins :: rest) ->
+  match ins with WTest | WWrite true _ | WLatch _ | WRel => True | _ => False end.
+Proof.
+  intros H. apply okhold_inv in H.
+  destruct H as [(-> & _)|[(f & d & x & r & -> & _)|[(f & -> & _)|(f & -> & _)]]]; exact I.
+Qed.
+
+(* the four possible statuses of the moving thread, with the impossible ones removed by the
+   head instruction *)
+Ltac absurd_status :=
+  match goal with
+  | H : top (_ :: _) |- _ => apply top_head in H; cbn in H; contradiction
+  | H : cs (_ :: _) |- _ => apply cs_head in H; cbn in H; contradiction
+  | H : okhold _ (_ :: _) |- _ => apply okhold_head in H; cbn in H; contradiction
+  end.
+
+Lemma wstep_inv s i : Inv s -> Inv (wstep s i).
+Proof.
+  intros HI. unfold wstep.
+  destruct (nth_error (wths s) i) as [t|] eqn:Ei; [|exact HI].
+  destruct (wcode t) as [|ins rest] eqn:Ec; [exact HI|].
+  pose proof (inv_thr s HI i t Ei) as Hst. unfold thr_ok in Hst. rewrite Ec in Hst.
+  assert (Hex : exists t, nth_error (wths s) i = Some t) by eauto.
+  destruct ins as [|tmo| |fatal x|b| | | |].
+  - (* WPrep: only at top *)
+    destruct Hst as [(Hn & [Htop|(Hcs & _)])|(Hh & [(_ & Hok)|(_ & Hcs & _)])]; try absurd_status.
+    inversion Htop; subst.
+    eapply inv_frame; try eassumption; fields; try reflexivity; auto.
+    left. fields. split; [exact Hn|now left].
+  - (* WAcq: only at top *)
+    destruct Hst as [(Hn & [Htop|(Hcs & _)])|(Hh & [(_ & Hok)|(_ & Hcs & _)])]; try absurd_status.
+    inversion Htop as [| | | |b0 f c0 Hit]; subst.
+    destruct (wfail t) as [e|] eqn:Ef.
+    + eapply inv_frame; try eassumption; fields; try reflexivity; auto.
+      left. fields. split; [exact Hn|right]. split; [eapply cs_test; eauto|discriminate].
+    + destruct (wlk s) as [h|] eqn:El.
+      * destruct tmo; [|exact HI].
+        eapply inv_frame; try eassumption; fields; try reflexivity; auto.
+        left. fields. split; [exact Hn|right]. split; [eapply cs_test; eauto|discriminate].
+      * (* acquire *)
+        constructor; fields.
+        -- intros j tj Hj. apply nth_upd_cases in Hj. destruct Hj as [(<- & -> & _)|(Hne & Hj)].
+           ++ right. fields. split; [reflexivity|left]. split; [reflexivity|]. left. exists f. auto.
+           ++ pose proof (inv_thr s HI j tj Hj) as [(Hnj & H)|(Hhj & _)]; [|congruence].
+              left. fields. split; [congruence|exact H].
+        -- intros h Hh. inversion Hh; subst h. eexists. eapply nth_upd_same; eauto.
+        -- discriminate.
+        -- cbn. rewrite app_nil_r. pose proof (inv_wire s HI) as Hw. rewrite El, app_nil_r in Hw. exact Hw.
+        -- eapply Forall_block_ok_mono; [apply (inv_blocks s HI)|fields; try congruence; auto|fields; auto].
+        -- intros t0 f0 Hin Hc Hne. destruct (inv_close s HI t0 f0 Hin Hc Hne) as (He & _ & Hr). auto.
+  - (* WTest *)
+    destruct Hst as [(Hn & [Htop|(Hcs & Hf)])|(Hh & [(Hf & Hok)|(Hf & Hcs & Hne & Hw)])]; try absurd_status.
+    + (* skipped acquire: skip *)
+      destruct (wfail t) as [e|] eqn:Ef; [|now contradiction Hf].
+      eapply inv_frame; try eassumption; fields; try reflexivity; auto.
+      left. fields. split; [exact Hn|right]. split; [eapply cs_step_skip; eauto; discriminate|discriminate].
+    + (* holder, no failure so far: the test *)
+      rewrite Hf. apply okhold_inv in Hok.
+      destruct Hok as [(_ & Ho & f & Hwr)|[(f & d & x & r & Hx & _)|[(f & Hx & _)|(f & Hx & _)]]]; try discriminate.
+      eapply inv_frame; try eassumption; fields; try reflexivity; auto.
+      right. fields. split; [exact Hh|]. destruct (werr s) as [e|] eqn:Ee.
+      * right. split; [discriminate|]. split; [eapply cs_wr; eauto|]. fields. split; [discriminate|now left].
+      * left. split; [reflexivity|]. right; left. exists f, [], (chunks_of f). fields. rewrite Ho. auto.
+    + (* holder that has failed: skip *)
+      destruct (wfail t) as [e|] eqn:Ef; [|now contradiction Hf].
+      eapply inv_frame; try eassumption; fields; try reflexivity; auto.
+      right. fields. split; [exact Hh|right]. split; [discriminate|].
+      split; [eapply cs_step_skip; eauto; discriminate|]. fields. auto.
+  - (* WWrite *)
+    destruct Hst as [(Hn & [Htop|(Hcs & Hf)])|(Hh & [(Hf & Hok)|(Hf & Hcs & Hne & Hw)])]; try absurd_status.
+    + destruct (wfail t) as [e|] eqn:Ef; [|now contradiction Hf].
+      eapply inv_frame; try eassumption; fields; try reflexivity; auto.
+      left. fields. split; [exact Hn|right]. split; [eapply cs_step_skip; eauto; discriminate|discriminate].
+    + rewrite Hf. apply okhold_inv in Hok.
+      destruct Hok as [(Hx & _)|[(f & d & x0 & r & Hx & Hwr & Hd & Ho & He)|[(f & Hx & _)|(f & Hx & _)]]]; try discriminate.
+      injection Hx as -> <-.
+      destruct (wtc s) eqn:Etc.
+      * (* the transport is closed: the failure becomes sticky *)
+        eapply inv_frame; try eassumption; fields; try reflexivity; auto;
+          try (intros ? ? ?; congruence); try (intros _; apply first_wins_some); [idtac].
+        right. fields. split; [exact Hh|right]. split; [discriminate|].
+        split; [eapply cs_wr; eauto|]. fields. split; [apply first_wins_some|right].
+        split; [reflexivity|]. exists f, x, r. rewrite Ho. auto.
+      * (* the chunk reaches the wire *)
+        pose proof (inv_wire s HI) as Hwire. rewrite Hh in Hwire.
+        rewrite Hh, Nat.eqb_refl.
+        constructor; fields.
+        -- intros j tj Hj. apply nth_upd_cases in Hj. destruct Hj as [(<- & -> & _)|(Hne' & Hj)].
+           ++ right. fields. split; [reflexivity|left]. split; [reflexivity|]. right; left.
+              exists f, (d ++ [x]), r. fields. cbn [rev]. rewrite Ho, <- app_assoc. cbn. auto.
+           ++ pose proof (inv_thr s HI j tj Hj) as [(Hnj & H)|(Hhj & _)]; [|congruence].
+              left. fields. split; [congruence|exact H].
+        -- intros h Hh'. injection Hh' as <-. eexists. eapply nth_upd_same; eauto.
+        -- discriminate.
+        -- cbn [rev]. rewrite Hwire, map_app, app_assoc. reflexivity.
+        -- eapply Forall_block_ok_mono; [apply (inv_blocks s HI)|fields; try congruence; auto|fields; auto].
+        -- intros t0 f0 Hin Hc Hne0. destruct (inv_close s HI t0 f0 Hin Hc Hne0) as (He' & _). congruence.
+    + destruct (wfail t) as [e|] eqn:Ef; [|now contradiction Hf].
+      eapply inv_frame; try eassumption; fields; try reflexivity; auto.
+      right. fields. split; [exact Hh|right]. split; [discriminate|].
+      split; [eapply cs_step_skip; eauto; discriminate|]. fields. auto.
+  - (* WLatch *)
+    destruct Hst as [(Hn & [Htop|(Hcs & Hf)])|(Hh & [(Hf & Hok)|(Hf & Hcs & Hne & Hw)])]; try absurd_status.
+    + destruct (wfail t) as [e|] eqn:Ef; [|now contradiction Hf].
+      eapply inv_frame; try eassumption; fields; try reflexivity; auto.
+      left. fields. split; [exact Hn|right]. split; [eapply cs_step_skip; eauto; discriminate|discriminate].
+    + rewrite Hf. apply okhold_inv in Hok.
+      destruct Hok as [(Hx & _)|[(f & d & x0 & r & Hx & _)|[(f & Hx & Hr & Ho & He)|(f & Hx & _)]]]; try discriminate.
+      injection Hx as ->.
+      eapply inv_frame; try eassumption; fields; try reflexivity; auto;
+        try (intros ? ? ?; congruence); try (intros Hne; destruct (is_close f); [apply first_wins_some|exact Hne]); [idtac].
+      right. fields. split; [exact Hh|left]. split; [reflexivity|]. right; right.
+      exists f. fields. split; [exact Hr|split; [exact Ho|]]. intros Hc. rewrite Hc. apply first_wins_some.
+    + destruct (wfail t) as [e|] eqn:Ef; [|now contradiction Hf].
+      eapply inv_frame; try eassumption; fields; try reflexivity; auto.
+      right. fields. split; [exact Hh|right]. split; [discriminate|].
+      split; [eapply cs_step_skip; eauto; discriminate|]. fields. auto.
+  - (* WRel *)
+    destruct Hst as [(Hn & [Htop|(Hcs & Hf)])|(Hh & Hhold)]; try absurd_status.
+    + (* not the holder: nothing to release *)
+      assert (Hskip : Inv {| wlk := wlk s; werr := werr s; wtc := wtc s;
+                             wths := upd i {| wcode := rest; wfail := wfail t |} (wths s);
+                             wwire := wwire s; wclosed := wclosed s; wopen := wopen s; wres := wres s |}).
+      { eapply inv_frame; try eassumption; fields; try reflexivity; auto.
+        left. fields. split; [exact Hn|left]. now apply cs_rel_top. }
+      destruct (wlk s) as [h|] eqn:El; [|exact Hskip].
+      destruct (Nat.eqb h i) eqn:Eh; [apply Nat.eqb_eq in Eh; congruence|exact Hskip].
+    + (* the holder releases; what it wrote becomes a finished block *)
+      rewrite Hh, Nat.eqb_refl.
+      assert (Htop : top rest).
+      { destruct Hhold as [(_ & Hok)|(_ & Hcs & _)]; [|now apply cs_rel_top].
+        apply okhold_inv in Hok.
+        destruct Hok as [(Hx & _)|[(f & d & x0 & r & Hx & _)|[(f & Hx & _)|(f & _ & Ht & _)]]]; try discriminate. exact Ht. }
+      assert (Hblk : wopen s <> [] -> block_ok s (i, rev (wopen s)) /\ (forall f, rev (wopen s) = chunks_of f -> is_close f = true -> werr s <> None)).
+      { intros Hne. destruct Hhold as [(_ & Hok)|(_ & Hcs & Herr & Hw)].
+        - apply okhold_inv in Hok.
+          destruct Hok as [(Hx & _)|[(f & d & x0 & r & Hx & _)|[(f & Hx & _)|(f & _ & _ & Ho & Hc)]]]; try discriminate.
+          split; [left; exists f; exact Ho|]. intros f' Hf' Hc'. apply Hc.
+          assert (f' = f); [|subst; exact Hc'].
+          apply chunks_of_inj; [congruence|]. rewrite <- Hf'. intros H0. apply rev_nil_inv in H0. contradiction.
+        - destruct Hw as [Hw|(Htc & f & Hp)]; [contradiction|].
+          split; [right; cbn [snd]; eauto|]. intros f' Hf' _. exfalso.
+          eapply pprefix_not_whole; [exact Hp|exact Hf'|]. intros H0. apply rev_nil_inv in H0. contradiction. }
+      constructor; fields.
+      -- intros j tj Hj. apply nth_upd_cases in Hj. destruct Hj as [(<- & -> & _)|(Hne' & Hj)].
+         ++ left. fields. split; [discriminate|now left].
+         ++ pose proof (inv_thr s HI j tj Hj) as [(Hnj & H)|(Hhj & _)]; [|congruence].
+            left. fields. split; [discriminate|exact H].
+      -- discriminate.
+      -- reflexivity.
+      -- rewrite app_nil_r. rewrite (inv_wire s HI), Hh.
+         destruct (wopen s) as [|c0 o] eqn:Eo; [cbn; now rewrite app_nil_r|].
+         rewrite flat_cons. reflexivity.
+      -- destruct (wopen s) as [|c0 o] eqn:Eo; [apply (inv_blocks s HI)|].
+         constructor; [|apply (inv_blocks s HI)].
+         destruct Hblk as [Hb _]; [discriminate|]. exact Hb.
+      -- intros t0 f0 Hin Hc Hne0.
+         destruct (wopen s) as [|c0 o] eqn:Eo.
+         ++ destruct (inv_close s HI t0 f0 Hin Hc Hne0) as (He' & _ & Hr). auto.
+         ++ destruct Hblk as [_ Hb]; [discriminate|].
+            destruct Hin as [Hin|Hin].
+            ** inversion Hin; subst t0. split; [eapply Hb; eauto|]. split; [reflexivity|]. eexists. reflexivity.
+            ** destruct (inv_close s HI t0 f0 Hin Hc Hne0) as (_ & Ho & _). rewrite Eo in Ho. discriminate Ho.
+  - (* WEnd: only at top *)
+    destruct Hst as [(Hn & [Htop|(Hcs & _)])|(Hh & [(_ & Hok)|(_ & Hcs & _)])]; try absurd_status.
+    inversion Htop; subst.
+    eapply inv_frame; try eassumption; fields; try reflexivity; auto.
+    left. fields. split; [exact Hn|now left].
+  - (* WCloseT: only at top *)
+    destruct Hst as [(Hn & [Htop|(Hcs & _)])|(Hh & [(_ & Hok)|(_ & Hcs & _)])]; try absurd_status.
+    inversion Htop; subst.
+    eapply inv_frame; try eassumption; fields; try reflexivity; auto.
+    left. fields. split; [exact Hn|now left].
+  - (* WBad: in no shape *)
+    destruct Hst as [(Hn & [Htop|(Hcs & _)])|(Hh & [(_ & Hok)|(_ & Hcs & _)])]; absurd_status.
+Qed.
+
+(* ------------------------------------------------------------------ reachable states *)
+Lemma winit_inv codes : Forall top codes -> Inv (winit codes).
+Proof.
+  intros Hc. unfold winit. constructor; fields.
+  - intros i t Hi. apply nth_error_In in Hi. apply in_map_iff in Hi. destruct Hi as (c & <- & Hin).
+    left. fields. split; [discriminate|left]. eapply Forall_forall in Hc; eauto.
+  - discriminate.
+  - reflexivity.
+  - reflexivity.
+  - constructor.
+  - intros t f [].
+Qed.
+
+Lemma winit_ops_inv wsk csk progs :
+  ws_safeb wsk = true -> ws_safeb csk = true -> Inv (winit_ops wsk csk progs).
+Proof.
+  intros Hw Hc. apply winit_inv. apply Forall_forall. intros c Hin. apply in_map_iff in Hin.
+  destruct Hin as (ops & <- & _). now apply top_prog_code.
+Qed.
+
+Lemma wrun_inv s sched : Inv s -> Inv (wrun s sched).
+Proof. unfold wrun. apply srun_invariant. intros; now apply wstep_inv. Qed.
+
+(* (A) serialisation: the wire is a sequence of finished blocks -- each the whole frame of one
+   thread, or (only after a transport failure) a truncated one -- followed by what the current
+   holder of the lock has written of its frame so far *)
+Theorem serialised s : Inv s ->
+  exists blocks tail,
+    rev (wwire s) = concat (map flat_block blocks) ++ tail /\
+    Forall (block_ok s) blocks /\
+    (tail = [] \/ exists h f p, wlk s = Some h /\ tail = map (pair h) p /\ is_prefix p (chunks_of f)).
+Proof.
+  intros HI. exists (rev (wclosed s)).
+  exists (match wlk s with Some h => map (pair h) (rev (wopen s)) | None => [] end).
+  split; [apply (inv_wire s HI)|]. split; [apply Forall_rev, (inv_blocks s HI)|].
+  destruct (wlk s) as [h|] eqn:El; [|now left].
+  destruct (inv_holder s HI h El) as (t & Eh).
+  pose proof (inv_thr s HI h t Eh) as [(Hn & _)|(_ & [(_ & Hok)|(_ & _ & _ & Hw)])]; [congruence| |].
+  - destruct Hok as [(f & _ & Ho)|[(f & d & r & _ & Hd & Ho & _)|(f & _ & Ho & _)]].
+    + left. now rewrite Ho.
+    + right. exists h, f, d. rewrite Ho. split; [reflexivity|split; [reflexivity|]]. exists r. now rewrite Hd.
+    + right. exists h, f, (chunks_of f). rewrite Ho. split; [reflexivity|split; [reflexivity|]]. exists []. now rewrite app_nil_r.
+  - destruct Hw as [Ho|(_ & f & x & r & Hp)].
+    + left. now rewrite Ho.
+    + right. exists h, f, (rev (wopen s)). split; [reflexivity|split; [reflexivity|]]. exists (x :: r). exact Hp.
+Qed.
+
+(* with the lock free and the transport open: whole frames, nothing else *)
+Theorem quiescent_whole s : Inv s -> wlk s = None -> wtc s = false ->
+  exists blocks, rev (wwire s) = concat (map flat_block blocks) /\
+                 Forall (fun b => exists f, snd b = chunks_of f) blocks.
+Proof.
+  intros HI Hl Htc. exists (rev (wclosed s)). split.
+  - rewrite (inv_wire s HI), Hl. apply app_nil_r.
+  - apply Forall_rev. eapply Forall_impl; [|apply (inv_blocks s HI)].
+    intros b [H|(Hc & _)]; [exact H|congruence].
+Qed.
+
+(* (C) once the sticky error is set -- by a sent Close frame or by a transport failure -- no step
+   of any thread adds anything to the wire, and the error stays *)
+Lemma sticky_step s i : Inv s -> werr s <> None -> wwire (wstep s i) = wwire s /\ werr (wstep s i) = werr s.
+Proof.
+  intros HI He. unfold wstep.
+  destruct (nth_error (wths s) i) as [t|] eqn:Ei; [|auto].
+  destruct (wcode t) as [|ins rest] eqn:Ec; [auto|].
+  destruct (werr s) as [e|] eqn:Ee; [|now contradiction He].
+  destruct ins as [|tmo| |fatal x|b| | | |]; fields; auto.
+  - destruct (wfail t); fields; auto. destruct (wlk s); fields; auto. destruct tmo; fields; auto.
+  - destruct (wfail t); fields; auto.
+  - destruct (wfail t) eqn:Ef; fields; auto.
+    (* a real write needs the lock and a passed test, and then the error is not set *)
+    exfalso. pose proof (inv_thr s HI i t Ei) as Hst. unfold thr_ok in Hst. rewrite Ec in Hst.
+    destruct Hst as [(_ & [Htop|(_ & Hf)])|(_ & [(_ & Hok)|(Hf & _)])]; try absurd_status; try congruence.
+    apply okhold_inv in Hok.
+    destruct Hok as [(Hx & _)|[(f & d & x0 & r & _ & _ & _ & _ & He')|[(f & Hx & _)|(f & Hx & _)]]]; try discriminate.
+    congruence.
+  - destruct (wfail t); fields; auto. destruct b; auto.
+  - destruct (wlk s) as [h|]; fields; auto. destruct (Nat.eqb h i); fields; auto.
+Qed.
+
+Theorem sticky s sched : Inv s -> werr s <> None ->
+  wwire (wrun s sched) = wwire s /\ werr (wrun s sched) = werr s.
+Proof.
+  revert s. induction sched as [|i sched IH]; intros s HI He; [auto|].
+  unfold wrun in *. rewrite srun_cons.
+  destruct (sticky_step s i HI He) as (Hw & Hr).
+  destruct (IH (wstep s i)) as (Hw' & Hr'); [now apply wstep_inv|congruence|].
+  split; congruence.
+Qed.
+
+(* (D) a whole Close frame among the finished blocks is the newest one, nothing is in progress
+   behind it, the error is set -- hence (C) nothing is ever written after it *)
+Theorem close_is_last s t f : Inv s -> In (t, chunks_of f) (wclosed s) -> is_close f = true -> chunks_of f <> [] ->
+  (exists rest, wclosed s = (t, chunks_of f) :: rest) /\ wopen s = [] /\ werr s <> None /\
+  forall sched, wwire (wrun s sched) = wwire s.
+Proof.
+  intros HI Hin Hc Hne. destruct (inv_close s HI t f Hin Hc Hne) as (He & Ho & Hr).
+  split; [exact Hr|split; [exact Ho|split; [exact He|]]]. intros sched. now apply sticky.
+Qed.
+
+(* (E) later writes fail: with the error set, a thread that tests it (prepWrite, or the test
+   under the lock) fails with exactly that error, and the result it reports is the failure *)
+Lemma test_fails_after_error s i t e rest ins :
+  nth_error (wths s) i = Some t -> wcode t = ins :: rest -> ins = WPrep \/ ins = WTest ->
+  wfail t = None -> werr s = Some e ->
+  nth_error (wths (wstep s i)) i = Some {| wcode := rest; wfail := Some e |}.
+Proof.
+  intros Ei Ec Hins Hf He. unfold wstep. rewrite Ei, Ec.
+  destruct Hins as [-> | ->]; rewrite Hf; fields; rewrite He; eapply nth_upd_same; eauto.
+Qed.
+
+Lemma end_reports_failure s i t rest :
+  nth_error (wths s) i = Some t -> wcode t = WEnd :: rest -> wres (wstep s i) = (i, wfail t) :: wres s.
+Proof. intros Ei Ec. unfold wstep. rewrite Ei, Ec. reflexivity. Qed.
+
+(* ------------------------------------------------------------------ (B) per-thread order *)
+Inductive subseq {A} : list A -> list A -> Prop :=
+| ss_nil l : subseq [] l
+| ss_keep x a l : subseq a l -> subseq (x :: a) (x :: l)
+| ss_skip x a l : subseq a l -> subseq a (x :: l).
+
+Lemma subseq_refl {A} (l : list A) : subseq l l.
+Proof. induction l; constructor; auto. Qed.
+
+Lemma subseq_drop {A} (l : list A) : forall a x b, subseq (a ++ x :: b) l -> subseq (a ++ b) l.
+Proof.
+  induction l as [|y l IH]; intros a x b H.
+  - destruct a; inversion H.
+  - inversion H as [l0 E|y0 a' l0 H' E|y0 a' l0 H' E]; subst.
+    + destruct a; discriminate.
+    + destruct a as [|z a0]; cbn in *.
+      * injection E as -> ->. now apply ss_skip.
+      * injection E as -> ->. apply ss_keep. now apply IH with (x := x).
+    + apply ss_skip. now apply IH with (x := x).
+Qed.
+
+Definition instr_chunks (ins : winstr) : list chunk := match ins with WWrite _ x => [x] | _ => [] end.
+Definition code_chunks (c : list winstr) : list chunk := flat_map instr_chunks c.
+Definition written_by (i : nat) (w : list (nat * chunk)) : list chunk :=
+  map snd (filter (fun e => Nat.eqb (fst e) i) w).
+
+Lemma written_by_app i a b : written_by i (a ++ b) = written_by i a ++ written_by i b.
+Proof. unfold written_by. now rewrite filter_app, map_app. Qed.
+
+(* what one step does to the code of the moving thread and to the wire *)
+Lemma wstep_shape s j :
+  wstep s j = s \/
+  exists t ins rest tf, nth_error (wths s) j = Some t /\ wcode t = ins :: rest /\
+    wths (wstep s j) = upd j {| wcode := rest; wfail := tf |} (wths s) /\
+    (wwire (wstep s j) = wwire s \/ exists fl x, ins = WWrite fl x /\ wwire (wstep s j) = (j, x) :: wwire s).
+Proof.
+  unfold wstep.
+  destruct (nth_error (wths s) j) as [t|] eqn:Ej; [|now left].
+  destruct (wcode t) as [|ins rest] eqn:Ec; [now left|].
+  remember (wfail t) as tf0 eqn:Etf0.
+  destruct ins as [|tmo| |fatal x|b| | | |];
+    repeat match goal with
+           | |- context [match ?x with _ => _ end] => destruct x eqn:?
+           end;
+    first [ now left
+          | right; exists t; eexists; exists rest; eexists; split; [first [exact Ej|reflexivity]|split; [first [exact Ec|reflexivity]|split; [reflexivity|]]];
+            first [ now left | right; eexists; eexists; split; reflexivity ] ].
+Qed.
+
+Definition InvB (codes : list (list winstr)) (s : wstate) : Prop :=
+  forall i t c0, nth_error (wths s) i = Some t -> nth_error codes i = Some c0 ->
+    subseq (written_by i (rev (wwire s)) ++ code_chunks (wcode t)) (code_chunks c0).
+
+Lemma wstep_InvB codes s j : InvB codes s -> InvB codes (wstep s j).
+Proof.
+  intros H. destruct (wstep_shape s j) as [->|(t & ins & rest & tf & Ej & Ec & Hths & Hw)]; [exact H|].
+  intros i ti c0 Hi Hc. rewrite Hths in Hi. apply nth_upd_cases in Hi.
+  destruct Hi as [(<- & -> & _)|(Hne & Hi)].
+  - specialize (H j t c0 Ej Hc). rewrite Ec in H. cbn [wcode].
+    change (code_chunks (ins :: rest)) with (instr_chunks ins ++ code_chunks rest) in H.
+    destruct Hw as [-> |(fl & x & -> & ->)].
+    + destruct ins; cbn [instr_chunks app] in H; try exact H.
+      now apply subseq_drop in H.
+    + cbn [rev]. rewrite written_by_app. unfold written_by at 2. cbn [filter fst]. rewrite Nat.eqb_refl.
+      cbn [map snd instr_chunks app] in *. now rewrite <- app_assoc.
+  - specialize (H i ti c0 Hi Hc).
+    destruct Hw as [-> |(fl & x & -> & ->)]; [exact H|].
+    cbn [rev]. rewrite written_by_app. unfold written_by at 2. cbn [filter fst].
+    apply Nat.eqb_neq in Hne. rewrite Hne. cbn [map]. now rewrite app_nil_r.
+Qed.
+
+Theorem order_kept codes sched i c0 :
+  nth_error codes i = Some c0 ->
+  subseq (written_by i (rev (wwire (wrun (winit codes) sched)))) (code_chunks c0).
+Proof.
+  intros Hc.
+  assert (H : InvB codes (wrun (winit codes) sched)).
+  { unfold wrun. apply srun_invariant; [intros; now apply wstep_InvB|].
+    intros k t c1 Hk Hc1. cbn [winit wths wwire rev] in *. rewrite nth_error_map in Hk.
+    rewrite Hc1 in Hk. injection Hk as <-. cbn. apply subseq_refl. }
+  set (s := wrun (winit codes) sched) in *.
+  destruct (nth_error (wths s) i) as [t|] eqn:Ei.
+  - specialize (H i t c0 Ei Hc).
+    clear -H. remember (written_by i (rev (wwire s))) as W. clear HeqW.
+    induction (code_chunks (wcode t)) as [|x l IH] using rev_ind; [now rewrite app_nil_r in H|].
+    apply IH. rewrite app_assoc in H. replace (W ++ l) with ((W ++ l) ++ []) by apply app_nil_r.
+    eapply subseq_drop. rewrite <- app_assoc in *. exact H.
+  - (* the thread list never changes length *)
+    exfalso.
+    assert (Hlen : length (wths s) = length codes).
+    { unfold s, wrun. apply srun_invariant with (Inv := fun s => length (wths s) = length codes).
+      - intros s0 k Hl. destruct (wstep_shape s0 k) as [->|(t & ins & rest & tf & _ & _ & -> & _)]; [exact Hl|].
+        now rewrite upd_length.
+      - cbn. apply map_length. }
+    apply nth_error_None in Ei. assert (i < length codes)%nat by (apply nth_error_Some; congruence). lia.
+Qed.
+
+(* ------------------------------------------------------------------ whole frames, as a predicate
+   on the chronological wire, and the greedy checker that decides it *)
+Inductive frames_wire : list (nat * chunk) -> Prop :=
+| fw_block t f rest : frames_wire rest -> frames_wire (map (pair t) (chunks_of f) ++ rest)
+| fw_tail t f p : is_prefix p (chunks_of f) -> frames_wire (map (pair t) p).
+
+Lemma frame_eqb_refl f : frame_eqb f f = true.
+Proof. unfold frame_eqb. now rewrite !Z.eqb_refl, Bool.eqb_reflx, Nat.eqb_refl. Qed.
+
+Lemma expect_block t f rest n k :
+  expect t f k n (map (pair t) (map (fun k : nat => (f, k)) (seq k n)) ++ rest) = Some rest.
+Proof.
+  revert k. induction n as [|n IH]; intros k; cbn; [reflexivity|].
+  unfold chunk_eqb. cbn [fst snd]. now rewrite !Nat.eqb_refl, frame_eqb_refl, IH.
+Qed.
+
+Lemma expect_prefix t f n : forall k p, is_prefix p (map (fun k : nat => (f, k)) (seq k n)) ->
+  expect t f k n (map (pair t) p) = Some [].
+Proof.
+  induction n as [|n IH]; intros k p (r & Hr); cbn.
+  - destruct p; [reflexivity|discriminate].
+  - destruct p as [|c p]; [reflexivity|]. cbn in Hr. injection Hr as <- Hr. cbn [map].
+    unfold chunk_eqb. cbn [fst snd]. rewrite !Nat.eqb_refl, frame_eqb_refl. cbn.
+    apply IH. now exists r.
+Qed.
+
+Lemma wholeb_fuel_sound w : frames_wire w -> forall fuel, (length w < fuel)%nat -> wholeb_fuel fuel w = true.
+Proof.
+  induction 1 as [t f rest Hr IH|t f p Hp]; intros fuel Hlt.
+  - unfold chunks_of in *. destruct (f_nch f) as [|n] eqn:En; [cbn; now apply IH|].
+    destruct fuel as [|fu]; [lia|]. cbn [seq map app]. cbn [wholeb_fuel]. rewrite En.
+    change ((t, (f, 0%nat)) :: map (pair t) (map (fun k : nat => (f, k)) (seq 1 n)) ++ rest)
+      with (map (pair t) (map (fun k : nat => (f, k)) (seq 0 (S n))) ++ rest).
+    rewrite expect_block. apply IH. rewrite app_length, !map_length, seq_length in Hlt. cbn in Hlt. lia.
+  - destruct fuel as [|fu]; [lia|]. unfold chunks_of in Hp.
+    destruct p as [|c p]; [reflexivity|].
+    destruct Hp as (r & Hr). destruct (f_nch f) as [|n] eqn:En; [discriminate|].
+    cbn in Hr. injection Hr as <- Hr. cbn [map wholeb_fuel]. rewrite En.
+    change ((t, (f, 0%nat)) :: map (pair t) p) with (map (pair t) ((f, 0%nat) :: p)).
+    rewrite (expect_prefix t f (S n) 0 ((f, 0%nat) :: p)); [|exists r; cbn; now rewrite Hr].
+    destruct fu; [cbn in Hlt; lia|reflexivity].
+Qed.
+
+Lemma wholeb_sound w : frames_wire w -> wholeb w = true.
+Proof. intros H. apply wholeb_fuel_sound; [exact H|]. unfold lt. apply le_n. Qed.
+
+(* with the transport open, every reachable wire is whole frames plus the holder's frame so far *)
+Lemma frames_wire_blocks blocks t f p :
+  Forall (fun b => exists f, snd b = chunks_of f) blocks -> is_prefix p (chunks_of f) ->
+  frames_wire (concat (map flat_block blocks) ++ map (pair t) p).
+Proof.
+  intros Hb Hp. induction Hb as [|[t0 b] l (f0 & Hf0) _ IH]; cbn.
+  - now apply fw_tail with (f := f).
+  - cbn in Hf0. subst b. rewrite <- app_assoc. unfold flat_block at 1. cbn [fst snd]. now apply fw_block.
+Qed.
+
+Theorem frames_wire_open s : Inv s -> wtc s = false -> frames_wire (rev (wwire s)).
+Proof.
+  intros HI Htc. destruct (serialised s HI) as (blocks & tail & Hw & Hb & Ht). rewrite Hw.
+  assert (Hb' : Forall (fun b => exists f, snd b = chunks_of f) blocks).
+  { eapply Forall_impl; [|exact Hb]. intros b [H|(Hc & _)]; [exact H|congruence]. }
+  destruct Ht as [-> |(h & f & p & _ & -> & Hp)].
+  - change (@nil (nat * chunk)) with (map (pair 0%nat) (@nil chunk)).
+    apply frames_wire_blocks with (f := {| f_op := 0; f_fin := true; f_len := 0; f_nch := 0 |}); [exact Hb'|].
+    now exists (chunks_of {| f_op := 0; f_fin := true; f_len := 0; f_nch := 0 |}).
+  - now apply frames_wire_blocks with (f := f).
+Qed.
+
+Lemma corrupt_after_sound wsk csk sched :
+  corrupt_after wsk csk sched = true -> ~ frames_wire (rev (wwire (wrun (cex_state wsk csk) sched))).
+Proof.
+  unfold corrupt_after. intros H Hf. apply wholeb_sound in Hf. rewrite Hf in H. discriminate.
+Qed.
+
+Lemma find_cex_sound wsk csk sched :
+  find_cex wsk csk = Some sched -> ~ frames_wire (rev (wwire (wrun (cex_state wsk csk) sched))).
+Proof.
+  unfold find_cex. destruct (wths (cex_state wsk csk)) as [|a [|b [|]]]; try discriminate.
+  intros H. apply find_first_sound in H. now apply corrupt_after_sound.
+Qed.
